@@ -1,7 +1,7 @@
 (* C15 — Untrusted peers cannot crash or bloat the node (decision/arithmetic part of the message handler, the frame
    reader and the packet decoder; goroutine blocking and memory growth are runtime facts explored by the harness).
    Only statements; each is closed by a lemma proved in theories/HandlerProofs.v. *)
-From ZV Require Import Prelude GoSem Paging Handler Frame HandlerProofs.
+From ZV Require Import Prelude GoSem Paging Handler Frame HandlerProofs Session SessionProofs.
 From ZV.gen Require Import Consts.
 Open Scope Z_scope.
 
@@ -15,8 +15,14 @@ Theorem C15_hashes_bounded : forall H size r l, 1 <= H < two63 -> wf_req H r ->
 Proof. exact hashes_bounded. Qed.
 
 (* a blocks reply never carries more than MaxBlockFetch momentums, whatever the number of requested hashes *)
-Theorem C15_blocks_bounded : forall H size r l, handle H size r = OBlocks l -> Z.of_nat (length l) <= MaxBlockFetch.
+Theorem C15_blocks_bounded : forall H size r l tot, handle H size r = OBlocks l tot -> Z.of_nat (length l) <= MaxBlockFetch.
 Proof. exact blocks_bounded. Qed.
+
+(* the 10 MiB clause: the momentums of a blocks reply take at most ProtocolMaxMsgSize - 16 bytes (the RLP list header
+   adds at most 9), whatever hashes are requested, repeated or not, and however heavy the momentums are *)
+Theorem C15_blocks_bytes_bounded : forall H size r l tot, wf_req H r ->
+  handle H size r = OBlocks l tot -> 0 <= tot <= ProtocolMaxMsgSize - 16.
+Proof. exact blocks_bytes_bounded. Qed.
 
 (* a message above ProtocolMaxMsgSize is rejected before its code is looked at or its payload decoded *)
 Theorem C15_size_gate : forall H size r, ProtocolMaxMsgSize < size -> handle H size r = OErr ErrMsgTooLarge.
@@ -55,20 +61,42 @@ Theorem C15_packet_safe : forall len hash_ok sig_ok ptype rlp_ok,
   (sig_ok = false -> r = PTooSmall \/ r = PBadHash \/ r = PBadSig).
 Proof. exact packet_safe. Qed.
 
+(* connection life cycle: every phase has an armed timer — a peer that stops sending is dropped after at most
+   FrameReadTimeoutSec seconds, from whatever state *)
+Theorem C15_silent_peer_dropped : forall c, wf_conn c ->
+  ph (Session.run c (repeat Tick (Z.to_nat FrameReadTimeoutSec))) = PClosed.
+Proof. exact silent_peer_dropped. Qed.
+
+(* the transport handshake phases end HandshakeTimeoutSec seconds after accept whatever the peer sends at whatever pace *)
+Theorem C15_handshake_deadline : forall es c, wf_conn c -> (ph c = PEnc \/ ph c = PProto) ->
+  HandshakeTimeoutSec - age c <= ticks es -> ph (Session.run c es) <> PEnc /\ ph (Session.run c es) <> PProto.
+Proof. exact handshake_deadline. Qed.
+
+(* holding a connection open (also in the status wait, which has no deadline of its own) costs the peer at least one
+   frame per FrameReadTimeoutSec seconds *)
+Theorem C15_open_needs_frames : forall es c, wf_conn c -> (ph c = PWaitStatus \/ ph c = PRunning) ->
+  ph (Session.run c es) <> PClosed -> ticks es <= (frames es + 1) * FrameReadTimeoutSec - idle c - 1.
+Proof. exact open_needs_frames. Qed.
+
 (* record of finding F2 (fixed in /repo): an unknown hash made GetMomentumsByHash dereference nil *)
 Theorem C15_unknown_hash_panic_refuted :
-  exists H amount, 1 <= H /\ in_u64 amount /\ handle_gen false true H 0 (RGetHashes None amount) = OPanic.
+  exists H amount, 1 <= H /\ in_u64 amount /\ handle_gen false true true H 0 (RGetHashes None amount) = OPanic.
 Proof. exact unknown_hash_panic_refuted. Qed.
 (* record of finding F3 (fixed in /repo): Number=0, Amount=0 returned every hash of the chain *)
 Theorem C15_hashes_unbounded_refuted :
   exists H number amount l, in_u64 number /\ in_u64 amount /\
-    handle_gen true false H 0 (RGetHashesFromNumber number amount) = OHashes l /\ MaxHashFetch < Z.of_nat (length l).
+    handle_gen true false true H 0 (RGetHashesFromNumber number amount) = OHashes l /\ MaxHashFetch < Z.of_nat (length l).
 Proof. exact hashes_unbounded_refuted. Qed.
+
+(* record of the reply-size finding (fixed in /repo, 580df5c): 128 requests for one momentum of 1.6 MB *)
+Theorem C15_blocks_bytes_unbounded_refuted :
+  exists H items l tot, Forall (wf_item H) items /\ handle_gen true true false H 0 (RGetBlocks items) = OBlocks l tot /\ ProtocolMaxMsgSize < tot.
+Proof. exact blocks_bytes_unbounded_refuted. Qed.
 
 (* non-vacuity *)
 Example C15_handle_example :
   handle 600 20 (RGetHashesFromNumber 595 512) = OHashes [600;599;598;597;596;595] /\
   handle 600 20 (RGetHashesFromNumber 0 0) = OHashes [] /\
   handle 600 20 (RGetHashes None 5) = OHashes [] /\
-  handle 600 20 (RGetBlocks [IKnown 3; IUnknown; IKnown 7]) = OBlocks [3;7].
+  handle 600 20 (RGetBlocks [IKnown 3 500; IUnknown; IKnown 7 600]) = OBlocks [3;7] 1100.
 Proof. vm_compute. repeat split; reflexivity. Qed.
